@@ -69,6 +69,9 @@ func serviceOptions(cfg cfgSpec) []vanguard.ServiceOption {
 	if cfg.MaxGet > 0 {
 		opts = append(opts, vanguard.WithMaxGetURLBytes(uint32(cfg.MaxGet)))
 	}
+	if cfg.Discard {
+		opts = append(opts, vanguard.WithRESTUnmarshalOptions(vanguard.RESTUnmarshalOptions{DiscardUnknownQueryParams: true}))
+	}
 	return opts
 }
 
